@@ -4083,8 +4083,14 @@ impl Interpreter {
 
         match func {
             JsFunction::Native(native) => {
-                // Call native function - propagate the Guarded to preserve guard
-                (native.func)(self, this_value, args)
+                // Call native function - propagate the Guarded to preserve guard.
+                // An FFI-registered function finds its C callback through current_ffi_id
+                // (same protocol as the call instruction of the bytecode VM)
+                let prev_ffi_id = self.current_ffi_id;
+                self.current_ffi_id = native.ffi_id;
+                let result = (native.func)(self, this_value, args);
+                self.current_ffi_id = prev_ffi_id;
+                result
             }
 
             JsFunction::Bytecode(bc_func) => {
